@@ -91,6 +91,13 @@ class Ctx(object):
     def labels(self, kind, n, prefix, distinct=True, order=None):
         """n labels of kind i / f / U; distinct; order in {None, 'inc', 'dec', 'mono', 'nonmono'}"""
         ls = [self.label(kind, "%s%d" % (prefix, i)) for i in range(n)]
+        if order in ('inc-ties', 'dec-ties'):
+            # monotonic but not strictly: neighbouring labels may coincide; the direction is fixed by the end points
+            for i in range(n - 1):
+                self.assume((ls[i] <= ls[i + 1]) if order == 'inc-ties' else (ls[i] >= ls[i + 1]))
+            if n >= 2:
+                self.assume((ls[0] < ls[n - 1]) if order == 'inc-ties' else (ls[0] > ls[n - 1]))
+            return ls
         if distinct:
             for i in range(n):
                 for j in range(i + 1, n):
